@@ -165,8 +165,11 @@ def run(ctx):
     if not bad:
         chk.ok("R02.d", dispatch.qualname, dispatch.loc(), f"{len(paths)} accepted paths: three tracking updates, once each, indexed by the scheduled operation")
 
-    # R02.e: constructor argument provenance
+    # R02.e: constructor argument provenance (on the flattened dispatch: private
+    # planning / committing steps inlined)
     sop = repo.find_class("ScheduledOperation")
+    dispatch_raw = dispatch
+    dispatch = ctx.norm.flat(dispatch_raw, depth=3)
     ctor = [n for n in own_nodes(dispatch.node) if isinstance(n, ast.Call) and repo.resolve(dispatch.module.name, ast.unparse(n.func)) == sop.qualname]
     if len(ctor) != 1:
         raise AnalysisError("dispatch: ScheduledOperation(...) construction not found exactly once")
@@ -188,6 +191,12 @@ def run(ctx):
         x = ctx.norm.xexpr(dispatch, e)
         if isinstance(x, ast.Name) and x.id == mid_p:
             return True
+        if isinstance(x, ast.Name):
+            # a copy of the parameter that is defaulted the same way:
+            #   m = machine_id ; if m is None: m = operation.machine_id
+            vals = [ast.unparse(d[1]) for d in ctx.flow.defs(dispatch).of(x.id) if d[1] is not None]
+            if vals and set(vals) <= {mid_p, f"{op_p}.machine_id"} and mid_p in vals:
+                return True
         if isinstance(x, ast.IfExp) and isinstance(x.test, ast.Compare) and len(x.test.ops) == 1 and ast.unparse(x.test.left) == mid_p \
                 and ast.unparse(x.test.comparators[0]) == "None":
             own = f"{op_p}.machine_id"
@@ -224,6 +233,7 @@ def run(ctx):
             loc=dispatch.loc(c),
         )
     _start_time_shape(ctx, start_time)
+    dispatch = dispatch_raw
 
     # ---------------------------------------------------------------- R02.c
     _replay_sites(ctx, dispatch)
@@ -308,7 +318,7 @@ def _start_time_shape(ctx, fi):
         return
     if not (isinstance(v, ast.Call) and isinstance(v.func, ast.Name) and v.func.id == "max" and len(v.args) == 2 and not v.keywords):
         raise AnalysisError(f"Dispatcher.start_time: shape not recognised ({ast.unparse(v)[:60]})")
-    got = {ast.unparse(expand(a)) for a in v.args}
+    got = {ctx.norm.xtext(fi, expand(a)) for a in v.args}  # one-expression accessors expanded
     R = dispatcher_roles(ctx)
     want = {f"self.{R['mach_free']}[{mid_p}]", f"self.{R['job_free']}[{op_p}.job_id]"}
     alt = {f"self.machine_next_available_time[{mid_p}]", f"self.job_next_available_time[{op_p}.job_id]"}
